@@ -22,6 +22,7 @@ type pipeCase struct {
 	FeedFirst bool   `json:"feed_first,omitempty"` // the whole stream is added and the input closed before the pipeline is built
 	Elem      string `json:"elem,omitempty"`       // element type of the queues (see queueCodec in queue_test.go)
 	Observe   bool   `json:"observe,omitempty"`    // the readers look at their output (GetSize, IsEmpty, AsArray) before every RemoveHead
+	Past      int    `json:"past,omitempty"`       // the input queue has been used before: this many values were added and discarded with RemoveAll
 }
 
 // counter is the caller's wait group.  Under the cooperative scheduler one goroutine runs at a time.
@@ -54,6 +55,9 @@ func genPipe(maxLen int) func(core.Source) pipeCase {
 		c.FeedFirst = uint(c.Length) <= c.Cap && s.Choose(3, "feed-first") == 0
 		c.Elem = core.Pick(s, queueElems, "elem")
 		c.Observe = s.Choose(3, "observe") == 0
+		if s.Choose(3, "past") == 0 {
+			c.Past = 1 + s.Choose(int(c.Cap), "past-values")
+		}
 		return c
 	}
 }
@@ -74,6 +78,12 @@ func execPipeE[E any](c pipeCase, src core.Source, cd lib.Codec[E]) (res core.Re
 	n := lib.Notation()
 	Q := col.Queue[E](n)
 	input := Q.MakeWithCapacity(c.Cap)
+	for k := 0; k < c.Past && k < int(c.Cap); k++ {
+		input.AddValue(cd.Enc(90 + k)) // values of an earlier use of the queue, discarded before the pipeline is built
+	}
+	if c.Past > 0 {
+		input.RemoveAll()
+	}
 	group := &counter{}
 	values := make([]int, c.Length)
 	for i := range values {
@@ -233,6 +243,9 @@ func execPipeE[E any](c pipeCase, src core.Source, cd lib.Codec[E]) (res core.Re
 	if c.Observe {
 		res.Classes = append(res.Classes, "readers-look-at-their-output")
 	}
+	if c.Past > 0 {
+		res.Classes = append(res.Classes, "input-used-before")
+	}
 	if r.AnyBlocked {
 		res.Classes = append(res.Classes, "some-call-blocked")
 	}
@@ -244,9 +257,9 @@ func TestC06(t *testing.T) {
 	defer r.End()
 	// every schedule of the smallest pipelines, one bounded enumeration per configuration (the schedule
 	// space explodes quickly: the bound keeps the tier's budget, exhaustive=false is reported when it is hit)
-	for _, cfg := range []pipeCase{{"Fork", 0, 2, 1, false, "", false}, {"Split", 0, 2, 1, false, "", false}, {"Split", 1, 2, 1, false, "", false}, {"Fork", 1, 2, 1, false, "", false}, {"Split", 1, 3, 1, false, "", false}, {"SplitJoin", 0, 2, 1, false, "", false}, {"SplitJoin", 1, 2, 1, false, "", false},
-		{"Fork", 1, 2, 1, false, "anynil", false}, {"Split", 1, 2, 1, false, "anynil", false}, {"SplitJoin", 1, 2, 1, false, "anynil", false},
-		{"Fork", 2, 2, 1, false, "", true}, {"Split", 2, 2, 1, false, "", true}} {
+	for _, cfg := range []pipeCase{{"Fork", 0, 2, 1, false, "", false, 0}, {"Split", 0, 2, 1, false, "", false, 0}, {"Split", 1, 2, 1, false, "", false, 0}, {"Fork", 1, 2, 1, false, "", false, 0}, {"Split", 1, 3, 1, false, "", false, 0}, {"SplitJoin", 0, 2, 1, false, "", false, 0}, {"SplitJoin", 1, 2, 1, false, "", false, 0},
+		{"Fork", 1, 2, 1, false, "anynil", false, 0}, {"Split", 1, 2, 1, false, "anynil", false, 0}, {"SplitJoin", 1, 2, 1, false, "anynil", false, 0},
+		{"Fork", 2, 2, 1, false, "", true, 0}, {"Split", 2, 2, 1, false, "", true, 0}} {
 		cfg := cfg
 		name := fmt.Sprintf("all-schedules-%s-len%d-fan%d", cfg.Topology, cfg.Length, cfg.FanOut)
 		if cfg.Elem != "" {
